@@ -12,6 +12,7 @@
   written" (Props/C15b.lean).
 -/
 import Wormhole.Inv.UsageDefs
+import Wormhole.Reach
 
 namespace Wormhole
 namespace Sys
